@@ -47,7 +47,7 @@ def renderNode (env : Env) (s : State) (n : Nat) : String :=
       | some er => s!" x=[fs={b er.forceStale} inv={er.numInvalidChildren} all={b er.willFireAllCallbacks} edges={er.children.length}]"
       | none => ""
     | _ => ""
-  s!"n{n} {nd.kind.tag} h={nd.height} rch={nd.heightInRch} r={nd.recomputedAt} c={nd.changedAt} valid={b nd.valid} nec={b nd.isNecessary} val={v} par=[{par}] nh={nd.numOnUpdateHandlers} obs={nd.observers.length}{ex}"
+  s!"n{n} {nd.kind.tag} h={nd.height} rch={nd.heightInRch} r={nd.recomputedAt} c={nd.changedAt} valid={b nd.valid} nec={b nd.isNecessary} val={v} par=[{par}] nh={nd.numOnUpdateHandlers} obs={nd.observers.length} ch=[{joinWith "," ((s.children n).map toString)}]{ex}"
 
 def renderHeap (s : State) : String :=
   let buckets := (s.rch.queues.toList.zipIdx.filter fun (q, _) => !q.isEmpty).map fun (q, h) =>
